@@ -62,10 +62,17 @@ func vShapeOf(role int, st StateType) int {
 		State_SwapInSender_CreateSwap, State_SwapInSender_SendRequest, State_SwapInSender_AwaitAgreement,
 		State_SwapOutReceiver_CreateSwap, State_SwapInReceiver_CreateSwap:
 		return shRequest
+	case State_SwapInSender_BroadcastOpeningTx, State_SwapOutReceiver_BroadcastOpeningTx:
+		// the record of this state is written after the action ran: it normally already holds the
+		// broadcast (a crash right after that write is recovered from here); without it the action
+		// failed or the store write did
+		if zzverif.Bool("shape.broadcast_recorded") {
+			return shBroadcast
+		}
+		return shAgreed
 	case State_SwapOutSender_PayFeeInvoice, State_SwapOutSender_AwaitTxBroadcastedMessage,
 		State_SwapInReceiver_SendAgreement, State_SwapInReceiver_AwaitTxBroadcastedMessage,
-		State_SwapInSender_BroadcastOpeningTx,
-		State_SwapOutReceiver_SendFeeInvoice, State_SwapOutReceiver_AwaitFeeInvoicePayment, State_SwapOutReceiver_BroadcastOpeningTx:
+		State_SwapOutReceiver_SendFeeInvoice, State_SwapOutReceiver_AwaitFeeInvoicePayment:
 		return shAgreed
 	case State_SendCancel, State_SwapCanceled:
 		return zzverif.Choice("shape", 3)
